@@ -9,6 +9,8 @@ theorem verdict : (classify Generated.factsC23).Sound (Holds (cfgOf Generated.fa
 #eval IO.println (verdictLine "C23" (classify Generated.factsC23))
 #print axioms verdict
 #print axioms migrate_preserves
+#print axioms migrate_preserves_c01
+#print axioms Hv.MigrateV2.storV2_lawful
 #print axioms migrate_failure_atomic
 #print axioms migrate_delete_last
 #print axioms migrate_dryRun_noop
@@ -24,6 +26,21 @@ theorem verdict : (classify Generated.factsC23).Sound (Holds (cfgOf Generated.fa
 #print axioms dedupeFirst_witness
 #print axioms refutes_dedupeFirst
 #print axioms refutes_keepHyd
+#print axioms refutes_keepPartial
+#print axioms migrate_name_not_dropped
+#print axioms refutes_nameDropped
+#print axioms nameDropped_partial
+#print axioms keepPartial_partial
+#print axioms migrate_existing_kept
+#print axioms migrate_no_silent_drop
+#print axioms refutes_appendsExisting
+#print axioms appendsExisting_mixes
+#print axioms appendsExisting_destroys
+#print axioms appendsExisting_partial
+#print axioms good_refuses_existing
+#print axioms unstorable_key_aborts
+#print axioms Hv.MigrateV2.long_key_refused
+#print axioms Hv.MigrateV2.empty_key_refused
 #print axioms Overflow.overflow_duplicates_key
 #print axioms Overflow.no_duplicate_when_recorded
 
